@@ -11,8 +11,10 @@ import (
 	"os"
 	"sort"
 	"strings"
+	"sync"
 
 	"github.com/golang/protobuf/proto"
+	"github.com/openacid/slim/encode"
 	"github.com/openacid/slim/trie"
 )
 
@@ -269,6 +271,42 @@ var preVersions = []string{"0.5.12-rc1", "0.5.12-0", "0.5.12-alpha.1", "1.0.0-be
 var malformedVersions = []string{"abc", "", "0.5", "0.5.", ".5.12", "0..12", "0.5.12.", "0.5.12.1", "v0.5.12", "0.5.012", "00.5.12", "0.05.12", " 0.5.12", "0.5.12 ", "0.5.12-", "0.5.12+", "0.5.12-a..b", "0.5.12+a..b", "0.5.x", "-1.0.0", "0.5.12\x000", "0.5.12-\x01", "1.0.0.0.0.0.0.00", "0123456789abcdef", "9999999999999999", "0.5.12-01", "0,5,12", "0.5.12+\xff"}
 var metaVersions = []string{"0.5.12+meta", "0.5.12+1", "0.5.12+a.b-c", "0.5.11+x", "0.5.10+build.7"}
 
+// libVer is the version the library under test writes into its own streams (read from the
+// header of a fresh Marshal).  The compatible set of C07 is the historical list plus this
+// version, so a release that bumps its version is not mistaken for a newer, unknown one.
+var libVerOnce sync.Once
+var libVerStr string
+
+func libVer() string {
+	libVerOnce.Do(func() {
+		libVerStr = "0.5.12"
+		st, err := trie.NewSlimTrie(encode.I32{}, []string{"a"}, []int32{1})
+		if err == nil {
+			if b, err := st.Marshal(); err == nil && len(b) >= 32 {
+				libVerStr = headerVersion(b)
+			}
+		}
+	})
+	return libVerStr
+}
+
+// newerThanLib: versions outside the compatible set - the fixed list (without the
+// library's own version) plus the successors of the library's own version
+func newerThanLib() []string {
+	out := []string{}
+	for _, v := range newerVersions {
+		if v != libVer() {
+			out = append(out, v)
+		}
+	}
+	var a, b, c int
+	if n, _ := fmt.Sscanf(libVer(), "%d.%d.%d", &a, &b, &c); n == 3 {
+		out = append(out, fmt.Sprintf("%d.%d.%d", a, b, c+1), fmt.Sprintf("%d.%d.%d", a, b, c+7), fmt.Sprintf("%d.%d.0", a, b+1),
+			fmt.Sprintf("%d.%d.%d", a+1, b, c), fmt.Sprintf("%d.%d.%d-rc1", a, b, c))
+	}
+	return out
+}
+
 func (h *histRunner) run(hist [][]interface{}) {
 	h.t.NextCase()
 	h.m.Cases++
@@ -317,7 +355,7 @@ func (h *histRunner) run(hist [][]interface{}) {
 			case "unm":
 				if h.r.Intn(6) == 0 && p.Layout == "cur" {
 					// another compatible version of the same layout class loads the same
-					ver = []string{"0.5.12"}[0]
+					ver = libVer()
 				}
 			case "cut-header":
 				cut = h.r.Intn(32)
@@ -337,7 +375,8 @@ func (h *histRunner) run(hist [][]interface{}) {
 					}
 				}
 			case "newer":
-				ver = newerVersions[h.r.Intn(len(newerVersions))]
+				nv := newerThanLib()
+				ver = nv[h.r.Intn(len(nv))]
 			case "prerelease":
 				ver = preVersions[h.r.Intn(len(preVersions))]
 			case "malformed":
@@ -373,7 +412,7 @@ func (h *histRunner) run(hist [][]interface{}) {
 			if len(buf) >= 16 {
 				effVer = headerVersion(buf)
 			}
-			h.t.Emit(Ev{"ev": "unm", "sid": p.SID, "cut": cut, "ver": ints(effVer), "total": len(p.Bytes), "err": ec, "pan": pan,
+			h.t.Emit(Ev{"ev": "unm", "cur": ints(libVer()), "sid": p.SID, "cut": cut, "ver": ints(effVer), "total": len(p.Bytes), "err": ec, "pan": pan,
 				"bufmodified": b2i(modified), "kind": kind, "stages": stages, "viaproto": b2i(viaProto)})
 			if ec == "" && pan == "" {
 				src = p
@@ -416,7 +455,7 @@ func (h *histRunner) attempt(pre *poolStream, p *poolStream, cut int, ver string
 	h.t.Emit(Ev{"ev": "inst"})
 	if pre != nil {
 		ec := errClass(st.Unmarshal(append([]byte{}, pre.Bytes...)))
-		h.t.Emit(Ev{"ev": "unm", "sid": pre.SID, "cut": -1, "ver": ints(pre.Ver), "total": len(pre.Bytes), "err": ec, "pan": "", "bufmodified": 0, "kind": "unm", "stages": []string{"skip"}, "viaproto": 0})
+		h.t.Emit(Ev{"ev": "unm", "cur": ints(libVer()), "sid": pre.SID, "cut": -1, "ver": ints(pre.Ver), "total": len(pre.Bytes), "err": ec, "pan": "", "bufmodified": 0, "kind": "unm", "stages": []string{"skip"}, "viaproto": 0})
 	}
 	buf := append([]byte{}, p.Bytes...)
 	if setVer {
@@ -439,7 +478,7 @@ func (h *histRunner) attempt(pre *poolStream, p *poolStream, cut int, ver string
 	if len(buf) >= 16 {
 		effVer = headerVersion(buf)
 	}
-	h.t.Emit(Ev{"ev": "unm", "sid": p.SID, "cut": cut, "ver": ints(effVer), "total": len(p.Bytes), "err": ec, "pan": pan,
+	h.t.Emit(Ev{"ev": "unm", "cur": ints(libVer()), "sid": p.SID, "cut": cut, "ver": ints(effVer), "total": len(p.Bytes), "err": ec, "pan": pan,
 		"bufmodified": b2i(string(sent) != string(buf)), "kind": "attempt", "stages": stages, "viaproto": 0})
 	var src *poolStream
 	if ec == "" && pan == "" && cut < 0 {
@@ -545,7 +584,7 @@ func genCuts(t *Tracer, m *Meta, tier string, seed int64, r *rand.Rand, pools []
 		}
 		// version strings on a full valid stream
 		vers := []string{}
-		vers = append(vers, newerVersions...)
+		vers = append(vers, newerThanLib()...)
 		vers = append(vers, preVersions...)
 		vers = append(vers, malformedVersions...)
 		vers = append(vers, metaVersions...)
@@ -581,7 +620,7 @@ func otherLayoutVersion(ver, layout string) bool {
 	if i := strings.IndexByte(core, '+'); i >= 0 {
 		core = core[:i]
 	}
-	class := map[string]string{"0.5.12": "cur", "0.5.10": "v0510", "0.5.11": "v0510", "1.0.0": "v3", "0.5.8": "v3", "0.5.9": "v3"}[core]
+	class := map[string]string{libVer(): "cur", "0.5.12": "cur", "0.5.10": "v0510", "0.5.11": "v0510", "1.0.0": "v3", "0.5.8": "v3", "0.5.9": "v3"}[core]
 	if class == "" {
 		return false
 	}
@@ -841,7 +880,7 @@ func (hr *histReplay) handle(t *Tracer, name string, e map[string]interface{}) b
 		if len(buf) >= 16 {
 			effVer = headerVersion(buf)
 		}
-		t.Emit(Ev{"ev": "unm", "sid": p.SID, "cut": cut, "ver": ints(effVer), "total": len(p.Bytes), "err": ec, "pan": pan,
+		t.Emit(Ev{"ev": "unm", "cur": ints(libVer()), "sid": p.SID, "cut": cut, "ver": ints(effVer), "total": len(p.Bytes), "err": ec, "pan": pan,
 			"bufmodified": b2i(string(sent) != string(buf)), "kind": e["kind"], "stages": stages, "viaproto": b2i(viaProto)})
 		hr.src = nil
 		if ec == "" && pan == "" && cut < 0 {
